@@ -37,6 +37,11 @@ func cmdSelftest(args []string) int {
 		for i := 0; i < *n; i++ {
 			sd := check.RunSeed(seed, id, i)
 			res := s.Exec(sd, s.GenProgram(sd, *tier))
+			if res.ND {
+				// outside the seams (Go map iteration order): only the verdict is compared
+				fmt.Printf("%s %d %d ND %d\n", id, i, sd, len(res.Viol))
+				continue
+			}
 			fmt.Printf("%s %d %d %x %d %d\n", id, i, sd, res.LogHash, len(res.Viol), res.Images)
 		}
 	}
